@@ -275,6 +275,58 @@ int mkdir(const char *path, mode_t mode) {
 }
 
 //=============================================================================================
+// Clock and pid
+//=============================================================================================
+namespace sim {
+namespace simclock {
+namespace {
+bool g_active = false;
+uint64_t g_base = 0, g_ticks = 0, g_reads = 0;
+int g_pid = 0;
+}
+void activate(uint64_t baseSeconds, int pid) { g_active = true; g_base = baseSeconds; g_ticks = 0; g_reads = 0; g_pid = pid; }
+void deactivate() { g_active = false; }
+uint64_t readings() { return g_reads; }
+static bool on() { return g_active && g_harnessDepth == 0; }
+static void now(uint64_t &sec, uint64_t &nsec) {
+  g_reads++;
+  uint64_t us = g_ticks++;
+  sec = g_base + us / 1000000; nsec = (us % 1000000) * 1000;
+  g_log.ev("clock_read", sec, nsec);
+}
+} // namespace simclock
+} // namespace sim
+
+#include <sys/time.h>
+#include <time.h>
+extern "C" {
+time_t time(time_t *t) {
+  if (sim::simclock::on()) { uint64_t s, n; sim::simclock::now(s, n); if (t) *t = (time_t)s; return (time_t)s; }
+  typedef time_t (*fn)(time_t *);
+  static fn real = (fn)dlsym(RTLD_NEXT, "time");
+  return real(t);
+}
+int gettimeofday(struct timeval *tv, void *tz) {
+  if (sim::simclock::on()) { uint64_t s, n; sim::simclock::now(s, n); if (tv) { tv->tv_sec = (time_t)s; tv->tv_usec = (suseconds_t)(n / 1000); } return 0; }
+  typedef int (*fn)(struct timeval *, void *);
+  static fn real = (fn)dlsym(RTLD_NEXT, "gettimeofday");
+  return real(tv, tz);
+}
+int clock_gettime(clockid_t id, struct timespec *ts) {
+  if (sim::simclock::on()) { uint64_t s, n; sim::simclock::now(s, n); if (ts) { ts->tv_sec = (time_t)s; ts->tv_nsec = (long)n; } return 0; }
+  typedef int (*fn)(clockid_t, struct timespec *);
+  static fn real = (fn)dlsym(RTLD_NEXT, "clock_gettime");
+  return real(id, ts);
+}
+pid_t getpid(void) {
+  if (sim::simclock::on()) { sim::g_log.ev("getpid"); return (pid_t)sim::simclock::g_pid; }
+  typedef pid_t (*fn)(void);
+  static fn real = (fn)dlsym(RTLD_NEXT, "getpid");
+  return real();
+}
+}
+
+//=============================================================================================
 // Heap arena
 //=============================================================================================
 namespace sim {
